@@ -142,7 +142,7 @@ def main():
     rng = chk.rng
     mult = 3 if chk.broken else 1
     n_files = (30000 if chk.thorough else 4000) * mult
-    workers = 12 if chk.thorough else 10
+    workers = 4
 
     # ---------------------------------------------------------------- 1. in-process crash/hang search
     cases = []
@@ -224,7 +224,7 @@ def main():
         for j in (['1', '2', '4', 'auto'] if chk.thorough else ['2', '3']):
             fl = rng.sample(names, min(len(names), 6))
             runs.append((['-j', j] + fl, '-j ' + j))
-        outs = E.parallel(lambda r: E.run_cli(r[0], wd.path, timeout=HANG_S * 2), runs, workers=8)
+        outs = E.parallel(lambda r: E.run_cli(r[0], wd.path, timeout=HANG_S * 2), runs, workers=4)
         chk.evaluations += len(runs)
         cli_stats = collections.Counter()
         for (args, what), r in zip(runs, outs):
@@ -279,7 +279,7 @@ def main():
             tcases.append((len(tcases), data, ext, {'basename': 'pl'}))
             fam_stats.setdefault(name, []).append({'n': n, 'bytes': len(data)})
     tres = {}
-    run_cases(tcases, 6, lambda r: tres.__setitem__(r['idx'], r))
+    run_cases(tcases, 4, lambda r: tres.__setitem__(r['idx'], r))
     chk.evaluations += len(tcases)
     k = 0
     for name in sorted(fam_stats):
